@@ -44,6 +44,8 @@ def run(ctx):
     groups.append(("exhaustive-tokens-core", core, (True,)))
     wide = sc.tok_exhaustive(sc.TOK_WIDE, 3)
     groups.append(("exhaustive-tokens-wide", wide, (True, False)))
+    for k, v in sc.boundary_family().items():
+        groups.append(("boundary-" + k, v, (True, False)))
     shapes = {}
     rnd = []
     nrand = ctx.n(6000, 300000)
@@ -83,7 +85,7 @@ def run(ctx):
               rule="exhaustive: all %d strings of <=%d symbols over a %d-symbol byte alphabet x2 comment modes%s; token-level: all %d "
                    "sequences of <=%d lexemes over %s and all %d sequences of <=3 lexemes over a %d-lexeme alphabet (multi-character "
                    "operators, comments, unit numbers as single symbols; reaches state carried across tokens: nParen, insertSemi, "
-                   "pending unit); %d seeded lexeme sequences (identifiers, numbers, strings, operators, comments incl. line "
+                   "pending unit); the deterministic boundary-value family (escapes \\u \\U \\x octal around D7FF/D800/DFFF/E000/FFFF/10FFFF/110000/377/400 in '..' \"..\" c\"..\" py\"..\", UTF-8 boundary / overlong / surrogate / truncated encodings and BOM placement, digit-radix-letter range edges after every number prefix, //line numbers around 0, 1<<30, 1<<63, 1<<64); %d seeded lexeme sequences (identifiers, numbers, strings, operators, comments incl. line "
                    "directives, odd bytes; random separators), one third mutated by a byte deletion/duplication/replacement "
                    "(malformed stream); %d seeded stateful sequences of 4-12 lexemes ( ( ) ; ... ! newline literals units comments). "
                    "All cases are distinct inputs; non-trivial = stream of >= 3 tokens"
